@@ -74,7 +74,7 @@ _orig_plot_description = dc.plot_circuit_description
 
 
 def _entry(o):
-    e = {'cls': type(o).__name__, 'ch': [[c.id, c.channel.name] for c in o.channel_identifiers],
+    e = {'cls': type(o).__name__, 'ch': [[int(c.id), c.channel.name] for c in o.channel_identifiers],
          's': ticks(o.start_time), 'e': ticks(o.end_time), 'd': ticks(o.duration), 'rel': None}
     if hasattr(o, 'acquisition_tag'):
         e['tag'] = o.acquisition_tag
